@@ -53,53 +53,86 @@ Proof. unfold slot. destruct (i <? nev s) eqn:E; [apply Nat.ltb_lt in E; auto|di
 Definition is_start (s : pst) (i : nat) : Prop := exists k fp, slot s i = Some (EStart k fp).
 (* a Start slot that no live marker owns: completed, or abandoned in place *)
 Definition Valid (s : pst) (i : nat) : Prop := is_start s i /\ ~ In i (live s).
+(* slot i carries a forward-parent pointer of length d *)
+Definition Ptr (s : pst) (i d : nat) : Prop := exists k, slot s i = Some (EStart k (Some d)).
+(* every forward-parent pointer moves strictly forward to a Start slot (what event::process
+   relies on) *)
+Definition EvOK (s : pst) : Prop := forall i d, Ptr s i d -> 0 < d /\ is_start s (i + d).
+(* no forward-parent pointer targets slot m: abandoning m may pop its event *)
+Definition NT (s : pst) (m : nat) : Prop := forall i d, Ptr s i d -> i + d <> m.
 Definition LiveOK (s : pst) : Prop :=
-  forall m, In m (live s) -> slot s m = Some (EStart K_TOMBSTONE None).
+  (forall m, In m (live s) -> slot s m = Some (EStart K_TOMBSTONE None)) /\ EvOK s.
 
-(* events appended, nothing else touched *)
-Definition Appends (s s' : pst) : Prop := live s' = live s /\ exists l, evs s' = l ++ evs s.
+Definition plainev (e : event) : Prop := match e with EStart _ _ => False | _ => True end.
+(* token/error events appended, nothing else touched *)
+Definition Appends (s s' : pst) : Prop :=
+  live s' = live s /\ exists l, evs s' = l ++ evs s /\ Forall plainev l.
 
 Lemma appends_slot s s' i e : Appends s s' -> slot s i = Some e -> slot s' i = Some e.
 Proof.
-  intros [_ [l Hl]] H. rewrite slot_rev in *. rewrite Hl, rev_app_distr.
+  intros [_ [l [Hl _]]] H. rewrite slot_rev in *. rewrite Hl, rev_app_distr.
   rewrite nth_error_app1; auto. apply nth_error_Some. congruence.
 Qed.
+Lemma appends_slot_inv s s' i e : Appends s s' -> slot s' i = Some e -> slot s i = Some e \/ plainev e.
+Proof.
+  intros [_ [l [Hl Hp]]] H. rewrite slot_rev in *. rewrite Hl, rev_app_distr in H.
+  destruct (lt_dec i (length (rev (evs s)))) as [Hi|Hi].
+  - left. rewrite nth_error_app1 in H by exact Hi. exact H.
+  - right. rewrite nth_error_app2 in H by lia. apply nth_error_In in H. apply in_rev in H.
+    rewrite Forall_forall in Hp. apply Hp. exact H.
+Qed.
 Lemma appends_nev s s' : Appends s s' -> nev s <= nev s'.
-Proof. intros [_ [l Hl]]. unfold nev. rewrite Hl, app_length. lia. Qed.
+Proof. intros [_ [l [Hl _]]]. unfold nev. rewrite Hl, app_length. lia. Qed.
+Lemma appends_is_start s s' i : Appends s s' -> is_start s i -> is_start s' i.
+Proof. intros HA [k [fp H]]. exists k, fp. eapply appends_slot; eauto. Qed.
 Lemma appends_valid s s' i : Appends s s' -> Valid s i -> Valid s' i.
 Proof.
-  intros HA [[k [fp H]] HN]. split.
-  - exists k, fp. eapply appends_slot; eauto.
-  - destruct HA as [HL _]. rewrite HL. exact HN.
+  intros HA [H HN]. split; [eapply appends_is_start; eauto|].
+  destruct HA as [HL _]. rewrite HL. exact HN.
 Qed.
+Lemma appends_ptr s s' i d : Appends s s' -> Ptr s' i d -> Ptr s i d.
+Proof. intros HA [k H]. destruct (appends_slot_inv _ _ _ _ HA H) as [H'|[]]. exists k. exact H'. Qed.
+Lemma appends_nt s s' m : Appends s s' -> NT s m -> NT s' m.
+Proof. intros HA H i d Hp. apply H. eapply appends_ptr; eauto. Qed.
 Lemma appends_liveok s s' : Appends s s' -> LiveOK s -> LiveOK s'.
 Proof.
-  intros HA HL m Hm. pose proof HA as [E _]. rewrite E in Hm. eapply appends_slot; eauto.
+  intros HA [HL HE]. split.
+  - intros m Hm. pose proof HA as [E _]. rewrite E in Hm. eapply appends_slot; eauto.
+  - intros i d Hp. apply (appends_ptr _ _ _ _ HA) in Hp. destruct (HE i d Hp) as [H1 H2].
+    split; auto. eapply appends_is_start; eauto.
 Qed.
 Lemma appends_refl s : Appends s s.
 Proof. split; auto. exists []; auto. Qed.
 Lemma appends_trans a b c : Appends a b -> Appends b c -> Appends a c.
 Proof.
-  intros [H1 [l1 E1]] [H2 [l2 E2]]. split; [congruence|]. exists (l2 ++ l1). rewrite E2, E1, app_assoc. auto.
+  intros [H1 [l1 [E1 P1]]] [H2 [l2 [E2 P2]]]. split; [congruence|]. exists (l2 ++ l1).
+  split; [rewrite E2, E1, app_assoc; auto|apply Forall_app; auto].
 Qed.
 
 (* ---- the threaded state predicate ----
+   pre : the live marker obtained from precede (at most one at a time; it is a forward-parent
+         target and must be completed, never abandoned)
    own : live markers started (or received) by the function being verified, newest first
    Lb  : the live markers of the caller (untouched)
    b0  : a lower bound of nev that the function never goes below
-   V   : Start slots that were valid at entry and must stay valid *)
-Definition St (own Lb : list nat) (b0 : nat) (V : nat -> Prop) (s : pst) : Prop :=
-  LiveOK s /\ live s = own ++ Lb /\ (forall i, V i -> Valid s i) /\ b0 <= nev s /\
-  Forall (fun m => b0 <= m) own /\ NoDup (live s).
+   V   : Start slots that were valid at entry and must stay valid
+   W   : caller's markers that were not pointer targets at entry and must stay so *)
+Definition St (pre own Lb : list nat) (b0 : nat) (V W : nat -> Prop) (s : pst) : Prop :=
+  LiveOK s /\ live s = pre ++ own ++ Lb /\ (forall i, V i -> Valid s i) /\ b0 <= nev s /\
+  Forall (fun m => b0 <= m) (pre ++ own) /\ NoDup (live s) /\
+  (forall i, In i own -> NT s i) /\ (forall i, In i Lb -> W i -> NT s i).
 
-Lemma st_appends own Lb b0 V s s' : St own Lb b0 V s -> Appends s s' -> St own Lb b0 V s'.
+Lemma st_appends pre own Lb b0 V W s s' : St pre own Lb b0 V W s -> Appends s s' -> St pre own Lb b0 V W s'.
 Proof.
-  intros [H1 [H2 [H3 [H4 [H5 H6]]]]] HA. split; [|split; [|split; [|split; [|split]]]]; auto.
+  intros [H1 [H2 [H3 [H4 [H5 [H6 [H7 H8]]]]]]] HA.
+  split; [|split; [|split; [|split; [|split; [|split; [|split]]]]]]; auto.
   - eapply appends_liveok; eauto.
   - destruct HA as [E _]. congruence.
   - intros i Hi. eapply appends_valid; eauto.
   - pose proof (appends_nev _ _ HA). lia.
   - destruct HA as [E _]. rewrite E. exact H6.
+  - intros i Hi. eapply appends_nt; eauto.
+  - intros i Hi Hw. eapply appends_nt; eauto.
 Qed.
 
 (* primitives that only append events *)
@@ -117,8 +150,8 @@ Proof.
   intros Hm Hf s. unfold bind. specialize (Hm s). destruct (m s) as [a s1| |]; auto.
   specialize (Hf a s1). destruct (f a s1); auto. eapply appends_trans; eauto.
 Qed.
-Lemma pure_push e : Pure (push e).
-Proof. intros s. split; auto. exists [e]; auto. Qed.
+Lemma pure_push e : plainev e -> Pure (push e).
+Proof. intros He s. split; auto. exists [e]; auto. Qed.
 Lemma pure_panic {A} w : ~ mark w -> Pure (@panic A w).
 Proof. intros H s. exact H. Qed.
 
@@ -131,20 +164,20 @@ Lemma pure_at k : Pure (at_ inp k). Proof. intros s. apply appends_refl. Qed.
 Lemma pure_nth_at n k : Pure (nth_at inp n k). Proof. intros s. apply appends_refl. Qed.
 Lemma pure_at_ts ts : Pure (at_ts inp ts). Proof. intros s. apply appends_refl. Qed.
 Lemma pure_do_bump k n : Pure (do_bump k n).
-Proof. intros s. split; auto. exists [EToken k n]; auto. Qed.
+Proof. intros s. split; auto. exists [EToken k n]. split; [reflexivity|repeat constructor]. Qed.
 Lemma pure_eat k : Pure (eat inp k).
 Proof.
   intros s. unfold eat. destruct (nth_at_pure inp (pos s) 0 k); [|apply appends_refl].
-  cbn. split; auto. eexists [_]; reflexivity.
+  cbn. split; auto. eexists [_]. split; [reflexivity|repeat constructor].
 Qed.
 Lemma pure_bump k : Pure (bump inp k).
 Proof. unfold bump. apply pure_bind; [apply pure_eat|]. intros []; [apply pure_ret|apply pure_panic; cbn; tauto]. Qed.
 Lemma pure_bump_any : Pure (bump_any inp).
 Proof.
   intros s. unfold bump_any. destruct (N.eqb _ _); [apply appends_refl|].
-  cbn. split; auto. eexists [_]; reflexivity.
+  cbn. split; auto. eexists [_]. split; [reflexivity|repeat constructor].
 Qed.
-Lemma pure_error : Pure error. Proof. apply pure_push. Qed.
+Lemma pure_error : Pure error. Proof. apply pure_push. exact I. Qed.
 Lemma pure_expect k : Pure (expect inp k).
 Proof.
   unfold expect. apply pure_bind; [apply pure_eat|]. intros []; [apply pure_ret|].
@@ -204,29 +237,96 @@ Qed.
 Lemma nev_set_slot s i e : nev (set_slot s i e) = nev s.
 Proof. unfold nev, set_slot. cbn. apply set_nth_length. Qed.
 
+(* ---- how the primitives change slots and pointers ---- *)
+Lemma slot_push_inv s e lv p i x :
+  slot {| pos := p; evs := e :: evs s; live := lv |} i = Some x ->
+  (i = nev s /\ x = e) \/ slot s i = Some x.
+Proof.
+  intros H. rewrite slot_rev in *. cbn [evs rev] in H.
+  destruct (lt_dec i (length (rev (evs s)))) as [Hi|Hi].
+  - right. rewrite nth_error_app1 in H by exact Hi. exact H.
+  - left. rewrite nth_error_app2 in H by lia. rewrite rev_length in *.
+    destruct (i - length (evs s)) as [|j] eqn:E; cbn in H.
+    + split; [unfold nev; lia|congruence].
+    + destruct j; discriminate.
+Qed.
+Lemma slot_set_inv s i e j x :
+  i < nev s -> slot (set_slot s i e) j = Some x -> (j = i /\ x = e) \/ (j <> i /\ slot s j = Some x).
+Proof.
+  intros Hi H. destruct (Nat.eq_dec j i) as [->|Hne].
+  - left. rewrite slot_set_same in H by exact Hi. split; congruence.
+  - right. rewrite slot_set_other in H by auto. auto.
+Qed.
+Lemma ptr_push s e lv p i d :
+  (forall k d', e <> EStart k (Some d')) ->
+  Ptr {| pos := p; evs := e :: evs s; live := lv |} i d -> Ptr s i d.
+Proof.
+  intros He [k H]. apply slot_push_inv in H. destruct H as [[_ H]|H]; [|exists k; exact H].
+  exfalso. eapply He. symmetry. exact H.
+Qed.
+Lemma is_start_push s e lv p i : is_start s i -> is_start {| pos := p; evs := e :: evs s; live := lv |} i.
+Proof. intros [k [fp H]]. exists k, fp. apply slot_push_old. exact H. Qed.
+Lemma is_start_lt s i : is_start s i -> i < nev s.
+Proof. intros [k [fp H]]. eapply slot_some_lt; eauto. Qed.
+Lemma evok_push s e lv p :
+  (forall k d', e <> EStart k (Some d')) -> EvOK s -> EvOK {| pos := p; evs := e :: evs s; live := lv |}.
+Proof.
+  intros He HE i d Hp. apply ptr_push in Hp; auto. destruct (HE i d Hp) as [H1 H2]. split; auto.
+  apply is_start_push. exact H2.
+Qed.
+Lemma nt_push s e lv p m :
+  (forall k d', e <> EStart k (Some d')) -> NT s m -> NT {| pos := p; evs := e :: evs s; live := lv |} m.
+Proof. intros He H i d Hp. apply H. eapply ptr_push; eauto. Qed.
+
+(* rewriting a Start slot into a Start slot with the same pointer changes no pointer *)
+Lemma ptr_set_same_fp s m k k' fp i d :
+  slot s m = Some (EStart k fp) -> Ptr (set_slot s m (EStart k' fp)) i d -> Ptr s i d.
+Proof.
+  intros Hs [k1 H]. pose proof (slot_some_lt _ _ _ Hs) as Hlt.
+  apply slot_set_inv in H; auto. destruct H as [[-> H]|[_ H]].
+  - injection H as _ <-. exists k. exact Hs.
+  - exists k1. exact H.
+Qed.
+Lemma is_start_set s m e i :
+  m < nev s -> (exists k fp, e = EStart k fp) -> is_start s i -> is_start (set_slot s m e) i.
+Proof.
+  intros Hm [k [fp ->]] [k1 [fp1 H]]. pose proof (slot_some_lt _ _ _ H) as Hlt.
+  destruct (Nat.eq_dec i m) as [->|Hne].
+  - exists k, fp. apply slot_set_same. exact Hlt.
+  - exists k1, fp1. rewrite slot_set_other; auto.
+Qed.
+
 (* start *)
-Lemma WB_start (Q : marker -> pst -> Prop) own Lb b0 V s :
-  St own Lb b0 V s ->
-  (forall s', St (nev s :: own) Lb b0 V s' -> nev s' = S (nev s) ->
+Lemma WB_start (Q : marker -> pst -> Prop) own Lb b0 V W s :
+  St [] own Lb b0 V W s ->
+  (forall s', St [] (nev s :: own) Lb b0 V W s' -> nev s' = S (nev s) ->
               (forall i, Valid s i -> Valid s' i) -> Q (nev s) s') ->
   WB start Q s.
 Proof.
-  intros [H1 [H2 [H3 [H4 [H5 H6]]]]] HQ. unfold WB, start. apply HQ.
-  - split; [|split; [|split; [|split; [|split]]]].
+  intros [[H1 HE] [H2 [H3 [H4 [H5 [H6 [H7 H8]]]]]]] HQ. unfold WB, start.
+  assert (forall k d', EStart K_TOMBSTONE None <> EStart k (Some d')) as Hne by (intros; discriminate).
+  cbn [app] in *. apply HQ.
+  - split; [split|split; [|split; [|split; [|split; [|split; [|split]]]]]].
     + intros m [Hm|Hm].
       * subst m. apply slot_push_new.
       * apply slot_push_old. apply H1. exact Hm.
-    + cbn [live]. rewrite H2. reflexivity.
-    + intros i Hi. destruct (H3 i Hi) as [[k [fp Hs]] Hn]. split.
-      * exists k, fp. apply slot_push_old. exact Hs.
-      * cbn [live]. intros [E|E]; [|auto]. subst i. apply slot_some_lt in Hs. lia.
+    + apply evok_push; auto.
+    + cbn [live app]. rewrite H2. reflexivity.
+    + intros i Hi. destruct (H3 i Hi) as [Hs Hn]. split.
+      * apply is_start_push. exact Hs.
+      * cbn [live]. intros [E|E]; [|auto]. subst i. apply is_start_lt in Hs. lia.
     + unfold nev in *. cbn [evs length]. lia.
-    + constructor; auto.
+    + cbn [app]. constructor; auto.
     + cbn [live]. constructor; auto. intros Hin. apply H1 in Hin. apply slot_some_lt in Hin. lia.
+    + intros i [<-|Hi].
+      * intros j d Hp. apply ptr_push in Hp; auto. destruct (HE j d Hp) as [_ Hst].
+        apply is_start_lt in Hst. lia.
+      * apply nt_push; auto.
+    + intros i Hi Hw. apply nt_push; auto.
   - reflexivity.
-  - intros i [[k [fp Hs]] Hn]. split.
-    + exists k, fp. apply slot_push_old. exact Hs.
-    + cbn [live]. intros [E|E]; [|auto]. subst i. apply slot_some_lt in Hs. lia.
+  - intros i [Hs Hn]. split.
+    + apply is_start_push. exact Hs.
+    + cbn [live]. intros [E|E]; [|auto]. subst i. apply is_start_lt in Hs. lia.
 Qed.
 
 Lemma remove_nat_app m own Lb : In m own -> remove_nat m (own ++ Lb) = remove_nat m own ++ Lb.
@@ -234,6 +334,11 @@ Proof.
   induction own as [|x own IH]; cbn; [tauto|]. intros [H|H].
   - subst. rewrite Nat.eqb_refl. reflexivity.
   - destruct (m =? x); auto. rewrite IH; auto.
+Qed.
+Lemma remove_nat_app_notin m pre l : ~ In m pre -> remove_nat m (pre ++ l) = pre ++ remove_nat m l.
+Proof.
+  induction pre as [|x pre IH]; cbn; auto. intros H.
+  destruct (m =? x) eqn:E; [apply Nat.eqb_eq in E; subst; tauto|]. rewrite IH; auto.
 Qed.
 Lemma remove_nat_notin m x l : NoDup l -> In x (remove_nat m l) -> x <> m /\ In x l.
 Proof.
@@ -260,42 +365,103 @@ Proof.
   intros Hin HQ. unfold WB, use_marker. apply mem_nat_In in Hin. rewrite Hin. exact HQ.
 Qed.
 
-(* complete *)
-Lemma WB_complete m k (Q : cmarker -> pst -> Prop) own Lb b0 V s :
-  St own Lb b0 V s -> In m own ->
-  (forall s', St (remove_nat m own) Lb b0 V s' -> Valid s' m -> nev s <= nev s' ->
-              (forall i, Valid s i -> Valid s' i) -> Q (m, k) s') ->
+(* a step of the threaded predicate from the facts about the new state *)
+Lemma st_step pre own Lb b0 V W s pre' own' s' :
+  St pre own Lb b0 V W s ->
+  LiveOK s' -> live s' = pre' ++ own' ++ Lb -> NoDup (live s') ->
+  (forall i, Valid s i -> Valid s' i) -> b0 <= nev s' -> Forall (fun m => b0 <= m) (pre' ++ own') ->
+  (forall i, In i own' -> NT s' i) -> (forall i, In i Lb -> NT s i -> NT s' i) ->
+  St pre' own' Lb b0 V W s'.
+Proof.
+  intros [H1 [H2 [H3 [H4 [H5 [H6 [H7 H8]]]]]]] A1 A2 A3 A4 A5 A6 A7 A8.
+  split; [|split; [|split; [|split; [|split; [|split; [|split]]]]]]; auto.
+Qed.
+
+(* complete, on the bare state *)
+Lemma WB_complete_gen m k (Q : cmarker -> pst -> Prop) s :
+  LiveOK s -> NoDup (live s) -> In m (live s) ->
+  (forall s', LiveOK s' -> live s' = remove_nat m (live s) -> NoDup (live s') ->
+              (forall i, is_start s i -> is_start s' i) -> Valid s' m -> nev s' = S (nev s) ->
+              (forall i, NT s i -> NT s' i) -> Q (m, k) s') ->
   WB (complete m k) Q s.
 Proof.
-  intros [H1 [H2 [H3 [H4 [H5 H6]]]]] Hin HQ.
-  assert (In m (live s)) as Hl by (rewrite H2; apply in_or_app; auto).
+  intros [H1 HE] H6 Hl HQ.
   unfold complete. apply WB_bind. apply WB_use_marker; auto.
   set (s1 := {| pos := pos s; evs := evs s; live := remove_nat m (live s) |}).
   assert (slot s1 m = Some (EStart K_TOMBSTONE None)) as Hs by (apply (H1 m Hl)).
   unfold WB. rewrite Hs.
   pose proof (slot_some_lt _ _ _ Hs) as Hlt.
-  assert (forall j, j <> m -> forall x, slot s j = Some x ->
-            slot {| pos := pos (set_slot s1 m (EStart k None)); evs := EFinish :: evs (set_slot s1 m (EStart k None));
-                    live := live (set_slot s1 m (EStart k None)) |} j = Some x) as Hother.
-  { intros j Hj x Hx. apply slot_push_old. rewrite slot_set_other; auto. }
+  set (s2 := set_slot s1 m (EStart k None)).
+  assert (forall k d', EFinish <> EStart k d') as Hfin by (intros; discriminate).
+  assert (forall i d, Ptr {| pos := pos s2; evs := EFinish :: evs s2; live := live s2 |} i d -> Ptr s i d) as Hptr.
+  { intros i d Hp. apply ptr_push in Hp; [|intros; apply Hfin].
+    apply (ptr_set_same_fp s1 m K_TOMBSTONE k None i d Hs) in Hp. exact Hp. }
+  assert (forall i, is_start s i -> is_start {| pos := pos s2; evs := EFinish :: evs s2; live := live s2 |} i) as Hst.
+  { intros i Hi. apply is_start_push. apply is_start_set; auto. eexists _, _; reflexivity. }
   apply HQ.
-  - split; [|split; [|split; [|split; [|split]]]].
-    + intros m' Hm'. cbn [live set_slot] in Hm'. apply (remove_nat_notin _ _ _ H6) in Hm'.
-      destruct Hm' as [Hne Hm']. apply Hother; auto.
-    + cbn [live set_slot s1]. rewrite H2. apply remove_nat_app; auto.
-    + intros i Hi. destruct (H3 i Hi) as [[k' [fp Hsi]] Hn]. split.
-      * exists k', fp. apply Hother; auto. intros ->. contradiction.
-      * cbn [live set_slot s1]. intros Hc. apply In_remove_nat in Hc. contradiction.
-    + unfold nev in *. cbn [evs set_slot s1]. cbn [length]. rewrite set_nth_length. lia.
-    + apply forall_remove_nat; auto.
-    + cbn [live set_slot s1]. apply remove_nat_nodup; auto.
+  - split.
+    + intros m' Hm'. cbn [live set_slot s2 s1] in Hm'. apply (remove_nat_notin _ _ _ H6) in Hm'.
+      destruct Hm' as [Hne Hm']. apply slot_push_old. unfold s2. rewrite slot_set_other; auto.
+      apply (H1 m' Hm').
+    + intros i d Hp. apply Hptr in Hp. destruct (HE i d Hp) as [Hd Hi]. split; auto.
+  - reflexivity.
+  - cbn [live set_slot s2 s1]. apply remove_nat_nodup; auto.
+  - exact Hst.
   - split.
     + exists k, None. apply slot_push_old. apply slot_set_same. exact Hlt.
-    + cbn [live set_slot s1]. intros Hc. apply (remove_nat_notin _ _ _ H6) in Hc. tauto.
-  - unfold nev. cbn [evs set_slot s1 length]. rewrite set_nth_length. lia.
-  - intros i [[k' [fp Hsi]] Hn]. split.
-    + exists k', fp. apply Hother; auto. intros ->. contradiction.
-    + cbn [live set_slot s1]. intros Hc. apply In_remove_nat in Hc. contradiction.
+    + cbn [live set_slot s2 s1]. intros Hc. apply (remove_nat_notin _ _ _ H6) in Hc. tauto.
+  - unfold nev. cbn [evs set_slot s2 s1 length]. rewrite set_nth_length. reflexivity.
+  - intros i Hi j d Hp. apply Hi. apply Hptr. exact Hp.
+Qed.
+
+Lemma in_own_live pre own Lb b0 V W s m : St pre own Lb b0 V W s -> In m own -> In m (live s).
+Proof. intros [_ [H2 _]] H. rewrite H2. apply in_or_app. right. apply in_or_app. auto. Qed.
+Lemma own_notin_pre pre own Lb b0 V W s m : St pre own Lb b0 V W s -> In m own -> ~ In m pre.
+Proof.
+  intros [_ [H2 [_ [_ [_ [H6 _]]]]]] H Hp. rewrite H2 in H6. clear H2.
+  induction pre as [|x pre IH]; [destruct Hp|]. cbn in H6. inversion H6; subst. destruct Hp as [->|Hp].
+  - apply H2. apply in_or_app. right. apply in_or_app. auto.
+  - auto.
+Qed.
+Lemma valid_shrink s s' : (forall i, is_start s i -> is_start s' i) -> (forall i, In i (live s') -> In i (live s)) ->
+  forall i, Valid s i -> Valid s' i.
+Proof. intros A B i [H1 H2]. split; auto. Qed.
+
+Lemma WB_complete m k (Q : cmarker -> pst -> Prop) pre own Lb b0 V W s :
+  St pre own Lb b0 V W s -> In m own ->
+  (forall s', St pre (remove_nat m own) Lb b0 V W s' -> Valid s' m -> nev s <= nev s' ->
+              (forall i, Valid s i -> Valid s' i) -> Q (m, k) s') ->
+  WB (complete m k) Q s.
+Proof.
+  intros HS Hin HQ. pose proof HS as [H1 [H2 [H3 [H4 [H5 [H6 [H7 H8]]]]]]].
+  pose proof (in_own_live _ _ _ _ _ _ _ _ HS Hin) as Hl.
+  pose proof (own_notin_pre _ _ _ _ _ _ _ _ HS Hin) as Hnp.
+  apply WB_complete_gen; auto. intros s' A1 A2 A3 A4 A5 A6 A7.
+  assert (forall i, Valid s i -> Valid s' i) as Hv.
+  { apply valid_shrink; auto. intros i Hi. rewrite A2 in Hi. apply In_remove_nat in Hi. exact Hi. }
+  apply HQ; auto; [|lia].
+  eapply st_step; eauto.
+  - rewrite A2, H2. rewrite remove_nat_app_notin by auto. rewrite remove_nat_app by auto. reflexivity.
+  - lia.
+  - rewrite Forall_app in *. destruct H5. split; auto. apply forall_remove_nat; auto.
+  - intros i Hi. apply In_remove_nat in Hi. auto.
+Qed.
+Lemma WB_complete_pre m k (Q : cmarker -> pst -> Prop) own Lb b0 V W s :
+  St [m] own Lb b0 V W s ->
+  (forall s', St [] own Lb b0 V W s' -> Valid s' m -> nev s <= nev s' ->
+              (forall i, Valid s i -> Valid s' i) -> Q (m, k) s') ->
+  WB (complete m k) Q s.
+Proof.
+  intros HS HQ. pose proof HS as [H1 [H2 [H3 [H4 [H5 [H6 [H7 H8]]]]]]].
+  assert (In m (live s)) as Hl by (rewrite H2; left; reflexivity).
+  apply WB_complete_gen; auto. intros s' A1 A2 A3 A4 A5 A6 A7.
+  assert (forall i, Valid s i -> Valid s' i) as Hv.
+  { apply valid_shrink; auto. intros i Hi. rewrite A2 in Hi. apply In_remove_nat in Hi. exact Hi. }
+  apply HQ; auto; [|lia].
+  eapply st_step; eauto.
+  - rewrite A2, H2. cbn [app]. apply remove_nat_head.
+  - lia.
+  - cbn [app] in *. inversion H5; auto.
 Qed.
 
 (* popping the newest event *)
@@ -306,16 +472,23 @@ Proof.
   intros He Hi H. rewrite slot_rev in *. cbn [evs]. rewrite He in H. cbn [rev] in H.
   rewrite nth_error_app1 in H by (rewrite rev_length; lia). exact H.
 Qed.
+Lemma slot_pop_inv s e r lv p i x :
+  evs s = e :: r -> slot {| pos := p; evs := r; live := lv |} i = Some x -> slot s i = Some x.
+Proof.
+  intros He H. rewrite slot_rev in *. cbn [evs] in H. rewrite He. cbn [rev].
+  rewrite nth_error_app1; auto. apply nth_error_Some. congruence.
+Qed.
 
-(* abandon *)
-Lemma WB_abandon m (Q : unit -> pst -> Prop) own Lb b0 V s :
-  St own Lb b0 V s -> In m own ->
-  (forall s', St (remove_nat m own) Lb b0 V s' -> (forall i, Valid s i -> Valid s' i) -> m <= nev s' -> Q tt s') ->
+(* abandon, on the bare state: the marker must not be a forward-parent target *)
+Lemma WB_abandon_gen m (Q : unit -> pst -> Prop) s :
+  LiveOK s -> NoDup (live s) -> In m (live s) -> NT s m ->
+  (forall s', LiveOK s' -> live s' = remove_nat m (live s) -> NoDup (live s') ->
+              (forall i, i <> m -> is_start s i -> is_start s' i) -> m <= nev s' -> nev s' <= nev s ->
+              (nev s' = nev s \/ S (nev s') = nev s) ->
+              (forall i, NT s i -> NT s' i) -> Q tt s') ->
   WB (abandon m) Q s.
 Proof.
-  intros [H1 [H2 [H3 [H4 [H5 H6]]]]] Hin HQ.
-  assert (In m (live s)) as Hl by (rewrite H2; apply in_or_app; auto).
-  assert (b0 <= m) as Hb by (rewrite Forall_forall in H5; auto).
+  intros [H1 HE] H6 Hl Hnt HQ.
   unfold abandon. apply WB_bind. apply WB_use_marker; auto.
   set (s1 := {| pos := pos s; evs := evs s; live := remove_nat m (live s) |}).
   pose proof (H1 m Hl) as Hs. pose proof (slot_some_lt _ _ _ Hs) as Hlt.
@@ -328,160 +501,253 @@ Proof.
       replace (m - length r) with 0 in Hs by lia. cbn in Hs. congruence. }
     rewrite N.eqb_refl.
     assert (length r = m) as Hr by (unfold nev in E; rewrite Ev in E; cbn in E; lia).
-    assert (forall j x, j <> m -> slot s j = Some x ->
-              slot {| pos := pos s1; evs := r; live := live s1 |} j = Some x) as Hother.
+    set (s2 := {| pos := pos s1; evs := r; live := live s1 |}).
+    assert (forall j x, j <> m -> slot s j = Some x -> slot s2 j = Some x) as Hother.
     { intros j x Hj Hx. eapply slot_pop; eauto. apply slot_some_lt in Hx. lia. }
+    assert (forall i d, Ptr s2 i d -> Ptr s i d) as Hptr.
+    { intros i d [k Hp]. exists k. eapply slot_pop_inv; eauto. }
     apply HQ.
-    + split; [|split; [|split; [|split; [|split]]]].
-      * intros m' Hm'. cbn [live s1] in Hm'. apply (remove_nat_notin _ _ _ H6) in Hm'.
+    + split.
+      * intros m' Hm'. cbn [live s2 s1] in Hm'. apply (remove_nat_notin _ _ _ H6) in Hm'.
         destruct Hm' as [Hne Hm']. apply Hother; auto.
-      * cbn [live s1]. rewrite H2. apply remove_nat_app; auto.
-      * intros i Hi. destruct (H3 i Hi) as [[k' [fp Hsi]] Hn]. split.
-        -- exists k', fp. apply Hother; auto. intros ->. contradiction.
-        -- cbn [live s1]. intros Hc. apply In_remove_nat in Hc. contradiction.
-      * unfold nev. cbn [evs]. lia.
-      * apply forall_remove_nat; auto.
-      * cbn [live s1]. apply remove_nat_nodup; auto.
-    + intros i [[k' [fp Hsi]] Hn]. split.
-      * exists k', fp. apply Hother; auto. intros ->. contradiction.
-      * cbn [live s1]. intros Hc. apply In_remove_nat in Hc. contradiction.
-    + unfold nev. cbn [evs]. lia.
+      * intros i d Hp. apply Hptr in Hp. destruct (HE i d Hp) as [Hd [k' [fp' Hi]]]. split; auto.
+        exists k', fp'. apply Hother; auto.
+    + reflexivity.
+    + cbn [live s2 s1]. apply remove_nat_nodup; auto.
+    + intros i Hi [k' [fp' Hs']]. exists k', fp'. apply Hother; auto.
+    + unfold nev. cbn [evs s2]. lia.
+    + unfold nev. cbn [evs s2]. rewrite Ev. cbn [length]. lia.
+    + right. unfold nev. cbn [evs s2]. rewrite Ev. reflexivity.
+    + intros i Hi j d Hp. apply Hi. apply Hptr. exact Hp.
   - apply HQ.
-    + split; [|split; [|split; [|split; [|split]]]].
+    + split.
       * intros m' Hm'. cbn [live s1] in Hm'. apply In_remove_nat in Hm'. apply (H1 m' Hm').
-      * cbn [live s1]. rewrite H2. apply remove_nat_app; auto.
-      * intros i Hi. destruct (H3 i Hi) as [Hst Hn]. split; auto.
-        cbn [live s1]. intros Hc. apply In_remove_nat in Hc. contradiction.
-      * exact H4.
-      * apply forall_remove_nat; auto.
-      * cbn [live s1]. apply remove_nat_nodup; auto.
-    + intros i [Hst Hn]. split; auto. cbn [live s1]. intros Hc. apply In_remove_nat in Hc. contradiction.
+      * exact HE.
+    + reflexivity.
+    + cbn [live s1]. apply remove_nat_nodup; auto.
+    + intros i _ Hi. exact Hi.
     + change (nev s1) with (nev s). lia.
+    + change (nev s1) with (nev s). lia.
+    + left. reflexivity.
+    + intros i Hi. exact Hi.
 Qed.
 
-(* precede *)
-Lemma WB_precede cm (Q : marker -> pst -> Prop) own Lb b0 V s :
-  St own Lb b0 V s -> Valid s (fst cm) ->
-  (forall s', St (nev s :: own) Lb b0 V s' -> nev s' = S (nev s) ->
+Lemma WB_abandon m (Q : unit -> pst -> Prop) pre own Lb b0 V W s :
+  St pre own Lb b0 V W s -> In m own ->
+  (forall s', St pre (remove_nat m own) Lb b0 V W s' -> (forall i, Valid s i -> Valid s' i) ->
+              m <= nev s' -> Q tt s') ->
+  WB (abandon m) Q s.
+Proof.
+  intros HS Hin HQ. pose proof HS as [H1 [H2 [H3 [H4 [H5 [H6 [H7 H8]]]]]]].
+  pose proof (in_own_live _ _ _ _ _ _ _ _ HS Hin) as Hl.
+  pose proof (own_notin_pre _ _ _ _ _ _ _ _ HS Hin) as Hnp.
+  assert (b0 <= m) as Hb.
+  { rewrite Forall_forall in H5. apply H5. apply in_or_app. auto. }
+  apply WB_abandon_gen; auto. intros s' A1 A2 A3 A4 A5 A6 A6' A7.
+  assert (forall i, Valid s i -> Valid s' i) as Hv.
+  { intros i [Hi Hn]. split.
+    - apply A4; auto. intros ->. contradiction.
+    - rewrite A2. intros Hc. apply In_remove_nat in Hc. contradiction. }
+  apply HQ; auto.
+  eapply st_step; eauto.
+  - rewrite A2, H2. rewrite remove_nat_app_notin by auto. rewrite remove_nat_app by auto. reflexivity.
+  - lia.
+  - rewrite Forall_app in *. destruct H5. split; auto. apply forall_remove_nat; auto.
+  - intros i Hi. apply In_remove_nat in Hi. auto.
+Qed.
+
+(* precede, on the bare state *)
+Lemma WB_precede_gen cm (Q : marker -> pst -> Prop) s :
+  LiveOK s -> NoDup (live s) -> Valid s (fst cm) ->
+  (forall s', LiveOK s' -> live s' = nev s :: live s -> NoDup (live s') ->
+              (forall i, is_start s i -> is_start s' i) -> nev s' = S (nev s) -> fst cm < nev s ->
+              (forall i, i <> nev s -> NT s i -> NT s' i) -> Q (nev s) s') ->
+  WB (precede cm) Q s.
+Proof.
+  intros [H1 HE] H6 [[k [fp Hc]] Hn] HQ. unfold precede, WB, bind, start.
+  set (s1 := {| pos := pos s; evs := EStart K_TOMBSTONE None :: evs s; live := nev s :: live s |}).
+  assert (slot s1 (fst cm) = Some (EStart k fp)) as Hc1 by (apply slot_push_old; exact Hc).
+  rewrite Hc1. pose proof (slot_some_lt _ _ _ Hc) as Hlt.
+  destruct (fst cm <=? nev s) eqn:E; [|apply Nat.leb_gt in E; lia].
+  pose proof (slot_some_lt _ _ _ Hc1) as Hlt1.
+  set (s2 := set_slot s1 (fst cm) (EStart k (Some (nev s - fst cm)))).
+  assert (forall i, is_start s i -> is_start s2 i) as Hst.
+  { intros i Hi. apply is_start_set; auto; [eexists _, _; reflexivity|]. apply is_start_push. exact Hi. }
+  assert (forall i d, Ptr s2 i d -> Ptr s i d \/ (i = fst cm /\ d = nev s - fst cm)) as Hptr.
+  { intros i d [k1 Hp]. apply slot_set_inv in Hp; auto. destruct Hp as [[-> Hp]|[Hne Hp]].
+    - right. split; auto. congruence.
+    - left. apply (ptr_push s (EStart K_TOMBSTONE None) (nev s :: live s) (pos s));
+        [intros; discriminate|]. exists k1. exact Hp. }
+  assert (is_start s2 (nev s)) as Hnew.
+  { exists K_TOMBSTONE, None. unfold s2. rewrite slot_set_other by lia. apply slot_push_new. }
+  apply HQ.
+  - split.
+    + intros m' Hm'. cbn [live set_slot s2 s1] in Hm'. unfold s2.
+      assert (fst cm <> m') as Hne by (intros <-; destruct Hm' as [Hm'|Hm']; [lia|contradiction]).
+      rewrite slot_set_other by auto.
+      destruct Hm' as [<-|Hm']; [apply slot_push_new|apply slot_push_old; apply H1; exact Hm'].
+    + intros i d Hp. apply Hptr in Hp. destruct Hp as [Hp|[-> ->]].
+      * destruct (HE i d Hp) as [Hd Hi]. split; auto.
+      * split; [lia|]. replace (fst cm + (nev s - fst cm)) with (nev s) by lia. exact Hnew.
+  - reflexivity.
+  - cbn [live set_slot s2 s1]. constructor; auto. intros Hin. apply H1 in Hin. apply slot_some_lt in Hin. lia.
+  - exact Hst.
+  - unfold s2. rewrite nev_set_slot. reflexivity.
+  - exact Hlt.
+  - intros i Hne Hi j d Hp. apply Hptr in Hp. destruct Hp as [Hp|[-> ->]]; [apply Hi; exact Hp|lia].
+Qed.
+
+Lemma WB_precede cm (Q : marker -> pst -> Prop) own Lb b0 V W s :
+  St [] own Lb b0 V W s -> Valid s (fst cm) ->
+  (forall s', St [nev s] own Lb b0 V W s' -> nev s' = S (nev s) ->
               (forall i, Valid s i -> Valid s' i) -> Q (nev s) s') ->
   WB (precede cm) Q s.
 Proof.
-  intros HS [[k [fp Hc]] Hn] HQ. unfold precede. apply WB_bind.
-  eapply WB_start; [exact HS|]. intros s1 HS1 Hnev Hmono.
-  destruct (Hmono (fst cm) (conj (ex_intro _ k (ex_intro _ fp Hc)) Hn)) as [[k1 [fp1 Hc1]] Hn1].
-  unfold WB. rewrite Hc1. pose proof (slot_some_lt _ _ _ Hc) as Hlt.
-  destruct (fst cm <=? nev s) eqn:E; [|apply Nat.leb_gt in E; lia].
-  destruct HS1 as [H1 [H2 [H3 [H4 [H5 H6]]]]].
-  pose proof (slot_some_lt _ _ _ Hc1) as Hlt1.
-  assert (forall j x, j <> fst cm -> slot s1 j = Some x ->
-            slot (set_slot s1 (fst cm) (EStart k1 (Some (nev s - fst cm)))) j = Some x) as Hother.
-  { intros j x Hj Hx. rewrite slot_set_other; auto. }
-  assert (forall j, is_start s1 j -> is_start (set_slot s1 (fst cm) (EStart k1 (Some (nev s - fst cm)))) j) as Hst.
-  { intros j [kj [fj Hj]]. destruct (Nat.eq_dec j (fst cm)) as [->|Hne].
-    - eexists _, _. apply slot_set_same. exact Hlt1.
-    - exists kj, fj. apply Hother; auto. }
-  apply HQ.
-  - split; [|split; [|split; [|split; [|split]]]].
-    + intros m' Hm'. cbn [live set_slot] in Hm'. apply Hother; [|apply H1; exact Hm'].
-      intros ->. contradiction.
-    + exact H2.
-    + intros i Hi. destruct (H3 i Hi) as [Hs Hnn]. split; auto.
-    + rewrite nev_set_slot. exact H4.
-    + exact H5.
-    + exact H6.
-  - rewrite nev_set_slot. exact Hnev.
-  - intros i Hi. destruct (Hmono i Hi) as [Hs Hnn]. split; auto.
+  intros HS HV HQ. pose proof HS as [H1 [H2 [H3 [H4 [H5 [H6 [H7 H8]]]]]]].
+  apply WB_precede_gen; auto. intros s' A1 A2 A3 A4 A5 A6 A7.
+  assert (forall i, In i (live s) -> i <> nev s) as Hlive.
+  { intros i Hi. destruct H1 as [H1 _]. apply H1 in Hi. apply slot_some_lt in Hi. lia. }
+  assert (forall i, Valid s i -> Valid s' i) as Hv.
+  { intros i [Hi Hn]. split; auto. rewrite A2. intros [<-|Hc]; [|contradiction].
+    apply is_start_lt in Hi. lia. }
+  apply HQ; auto.
+  eapply st_step; eauto.
+  - rewrite A2, H2. reflexivity.
+  - lia.
+  - cbn [app] in *. constructor; auto.
+  - intros i Hi. apply A7; auto. apply Hlive. rewrite H2. cbn [app]. apply in_or_app. auto.
+  - intros i Hi Hnt. apply A7; auto. apply Hlive. rewrite H2. cbn [app]. apply in_or_app. auto.
 Qed.
 
-(* extend_to *)
-Lemma WB_extend_to cm m (Q : cmarker -> pst -> Prop) own Lb b0 V s :
-  St own Lb b0 V s -> In m own -> Valid s (fst cm) -> m <= fst cm ->
-  (forall s', St (remove_nat m own) Lb b0 V s' -> Valid s' (fst cm) -> Valid s' m ->
-              nev s' = nev s -> (forall i, Valid s i -> Valid s' i) -> Q cm s') ->
+(* extend_to, on the bare state: the marker must lie strictly before the completed one *)
+Lemma WB_extend_to_gen cm m (Q : cmarker -> pst -> Prop) s :
+  LiveOK s -> NoDup (live s) -> In m (live s) -> Valid s (fst cm) -> m < fst cm ->
+  (forall s', LiveOK s' -> live s' = remove_nat m (live s) -> NoDup (live s') ->
+              (forall i, is_start s i -> is_start s' i) -> Valid s' m -> nev s' = nev s ->
+              (forall i, i <> fst cm -> NT s i -> NT s' i) -> Q cm s') ->
   WB (extend_to cm m) Q s.
 Proof.
-  intros [H1 [H2 [H3 [H4 [H5 H6]]]]] Hin [[kc [fc Hc]] Hnc] Hle HQ.
-  assert (In m (live s)) as Hl by (rewrite H2; apply in_or_app; auto).
+  intros [H1 HE] H6 Hl [Hcs Hnc] Hlt0 HQ.
   unfold extend_to. apply WB_bind. apply WB_use_marker; auto.
   set (s1 := {| pos := pos s; evs := evs s; live := remove_nat m (live s) |}).
   pose proof (H1 m Hl) as Hs. pose proof (slot_some_lt _ _ _ Hs) as Hlt.
   unfold WB. change (slot s1 m) with (slot s m). rewrite Hs.
   destruct (m <=? fst cm) eqn:E; [|apply Nat.leb_gt in E; lia].
-  assert (m <> fst cm) as Hne by (intros ->; contradiction).
-  assert (forall j x, j <> m -> slot s j = Some x ->
-            slot (set_slot s1 m (EStart K_TOMBSTONE (Some (fst cm - m)))) j = Some x) as Hother.
-  { intros j x Hj Hx. rewrite slot_set_other; auto. }
+  set (s2 := set_slot s1 m (EStart K_TOMBSTONE (Some (fst cm - m)))).
+  assert (forall i, is_start s i -> is_start s2 i) as Hst.
+  { intros i Hi. apply is_start_set; auto. eexists _, _; reflexivity. }
+  assert (forall i d, Ptr s2 i d -> Ptr s i d \/ (i = m /\ d = fst cm - m)) as Hptr.
+  { intros i d [k1 Hp]. apply slot_set_inv in Hp; auto. destruct Hp as [[-> Hp]|[Hne Hp]].
+    - right. split; auto. congruence.
+    - left. exists k1. exact Hp. }
   apply HQ.
-  - split; [|split; [|split; [|split; [|split]]]].
-    + intros m' Hm'. cbn [live set_slot s1] in Hm'. apply (remove_nat_notin _ _ _ H6) in Hm'.
-      destruct Hm' as [Hn' Hm']. apply Hother; auto.
-    + cbn [live set_slot s1]. rewrite H2. apply remove_nat_app; auto.
-    + intros i Hi. destruct (H3 i Hi) as [[k' [fp Hsi]] Hn]. split.
-      * exists k', fp. apply Hother; auto. intros ->. contradiction.
-      * cbn [live set_slot s1]. intros Hcc. apply In_remove_nat in Hcc. contradiction.
-    + rewrite nev_set_slot. exact H4.
-    + apply forall_remove_nat; auto.
-    + cbn [live set_slot s1]. apply remove_nat_nodup; auto.
   - split.
-    + exists kc, fc. apply Hother; auto.
-    + cbn [live set_slot s1]. intros Hcc. apply In_remove_nat in Hcc. contradiction.
+    + intros m' Hm'. cbn [live set_slot s2 s1] in Hm'. apply (remove_nat_notin _ _ _ H6) in Hm'.
+      destruct Hm' as [Hn' Hm']. unfold s2. rewrite slot_set_other; auto. apply (H1 m' Hm').
+    + intros i d Hp. apply Hptr in Hp. destruct Hp as [Hp|[-> ->]].
+      * destruct (HE i d Hp) as [Hd Hi]. split; auto.
+      * split; [lia|]. replace (m + (fst cm - m)) with (fst cm) by lia. apply Hst. exact Hcs.
+  - reflexivity.
+  - cbn [live set_slot s2 s1]. apply remove_nat_nodup; auto.
+  - exact Hst.
   - split.
     + eexists _, _. apply slot_set_same. exact Hlt.
-    + cbn [live set_slot s1]. intros Hcc. apply (remove_nat_notin _ _ _ H6) in Hcc. tauto.
-  - rewrite nev_set_slot. reflexivity.
-  - intros i [[k' [fp Hsi]] Hn]. split.
-    + exists k', fp. apply Hother; auto. intros ->. contradiction.
-    + cbn [live set_slot s1]. intros Hcc. apply In_remove_nat in Hcc. contradiction.
+    + cbn [live set_slot s2 s1]. intros Hcc. apply (remove_nat_notin _ _ _ H6) in Hcc. tauto.
+  - unfold s2. rewrite nev_set_slot. reflexivity.
+  - intros i Hne Hi j d Hp. apply Hptr in Hp. destruct Hp as [Hp|[-> ->]]; [apply Hi; exact Hp|lia].
+Qed.
+
+Lemma WB_extend_to cm m (Q : cmarker -> pst -> Prop) pre own Lb b0 V W s :
+  St pre own Lb b0 V W s -> In m own -> Valid s (fst cm) -> m < fst cm ->
+  (forall s', St pre (remove_nat m own) Lb b0 V W s' -> Valid s' (fst cm) -> Valid s' m ->
+              nev s' = nev s -> (forall i, Valid s i -> Valid s' i) -> Q cm s') ->
+  WB (extend_to cm m) Q s.
+Proof.
+  intros HS Hin HV Hlt HQ. pose proof HS as [H1 [H2 [H3 [H4 [H5 [H6 [H7 H8]]]]]]].
+  pose proof (in_own_live _ _ _ _ _ _ _ _ HS Hin) as Hl.
+  pose proof (own_notin_pre _ _ _ _ _ _ _ _ HS Hin) as Hnp.
+  apply WB_extend_to_gen; auto. intros s' A1 A2 A3 A4 A5 A6 A7.
+  assert (forall i, Valid s i -> Valid s' i) as Hv.
+  { apply valid_shrink; auto. intros i Hi. rewrite A2 in Hi. apply In_remove_nat in Hi. exact Hi. }
+  assert (forall i, In i (live s) -> i <> fst cm) as Hlive.
+  { intros i Hi ->. destruct HV as [_ HV]. contradiction. }
+  apply HQ; auto.
+  eapply st_step; eauto.
+  - rewrite A2, H2. rewrite remove_nat_app_notin by auto. rewrite remove_nat_app by auto. reflexivity.
+  - lia.
+  - rewrite Forall_app in *. destruct H5. split; auto. apply forall_remove_nat; auto.
+  - intros i Hi. apply In_remove_nat in Hi. apply A7; auto. apply Hlive.
+    rewrite H2. apply in_or_app. right. apply in_or_app. auto.
+  - intros i Hi Hnt. apply A7; auto. apply Hlive. rewrite H2. apply in_or_app. right. apply in_or_app. auto.
 Qed.
 
 (* ---- effects of whole functions ---- *)
 (* leaves the live markers as it found them *)
 Definition Frame (s s' : pst) : Prop :=
-  LiveOK s' /\ live s' = live s /\ (forall i, Valid s i -> Valid s' i) /\ nev s <= nev s' /\ NoDup (live s').
+  LiveOK s' /\ live s' = live s /\ (forall i, Valid s i -> Valid s' i) /\ nev s <= nev s' /\
+  NoDup (live s') /\ (forall i, In i (live s) -> NT s i -> NT s' i).
 (* consumes (completes or abandons) the newest live marker m *)
 Definition FrameC (m : nat) (s s' : pst) : Prop :=
   LiveOK s' /\ live s = m :: live s' /\ (forall i, Valid s i -> Valid s' i) /\
-  (forall b, b <= m -> b <= nev s') /\ NoDup (live s').
+  (forall b, b <= m -> b <= nev s') /\ NoDup (live s') /\ (forall i, In i (live s') -> NT s i -> NT s' i).
 
-Lemma frame_refl s : LiveOK s -> NoDup (live s) -> Frame s s.
-Proof. intros H1 H2. split; [|split; [|split; [|split]]]; auto. Qed.
-Lemma st_frame own Lb b0 V s s' : St own Lb b0 V s -> Frame s s' -> St own Lb b0 V s'.
+Lemma st_frame pre own Lb b0 V W s s' : St pre own Lb b0 V W s -> Frame s s' -> St pre own Lb b0 V W s'.
 Proof.
-  intros [H1 [H2 [H3 [H4 [H5 H6]]]]] [F1 [F2 [F3 [F4 F5]]]].
-  split; [|split; [|split; [|split; [|split]]]]; auto; try congruence; try lia.
+  intros HS [F1 [F2 [F3 [F4 [F5 F6]]]]]. pose proof HS as [H1 [H2 [H3 [H4 [H5 [H6 [H7 H8]]]]]]].
+  eapply st_step; eauto; try congruence; try lia.
+  - intros i Hi. apply F6; auto. eapply in_own_live; eauto.
+  - intros i Hi. apply F6. rewrite H2. apply in_or_app. right. apply in_or_app. auto.
 Qed.
-Lemma st_framec m own Lb b0 V s s' : St (m :: own) Lb b0 V s -> FrameC m s s' -> St own Lb b0 V s'.
+Lemma st_framec m own Lb b0 V W s s' :
+  St [] (m :: own) Lb b0 V W s -> FrameC m s s' -> St [] own Lb b0 V W s'.
 Proof.
-  intros [H1 [H2 [H3 [H4 [H5 H6]]]]] [F1 [F2 [F3 [F4 F5]]]].
-  inversion H5; subst.
-  split; [|split; [|split; [|split; [|split]]]]; auto.
-  rewrite H2 in F2. cbn in F2. congruence.
+  intros HS [F1 [F2 [F3 [F4 [F5 F6]]]]]. pose proof HS as [H1 [H2 [H3 [H4 [H5 [H6 [H7 H8]]]]]]].
+  cbn [app] in *. inversion H5; subst.
+  assert (live s' = own ++ Lb) as HL by (rewrite H2 in F2; congruence).
+  eapply st_step; eauto.
+  - intros i Hi. apply F6; [rewrite HL; apply in_or_app; auto|]. apply H7. right. exact Hi.
+  - intros i Hi. apply F6. rewrite HL. apply in_or_app. auto.
 Qed.
 (* entry and exit of a proof about a function *)
-Lemma st_enter s : LiveOK s -> NoDup (live s) -> St [] (live s) (nev s) (Valid s) s.
-Proof. intros H1 H2. split; [|split; [|split; [|split; [|split]]]]; auto. Qed.
-Lemma st_exit s s' : St [] (live s) (nev s) (Valid s) s' -> Frame s s'.
-Proof. intros [H1 [H2 [H3 [H4 [H5 H6]]]]]. repeat split; auto; apply H3; auto. Qed.
-Lemma st_enter_c m L s : LiveOK s -> NoDup (live s) -> live s = m :: L -> St [m] L m (Valid s) s.
+Lemma st_enter s : LiveOK s -> NoDup (live s) -> St [] [] (live s) (nev s) (Valid s) (NT s) s.
 Proof.
-  intros H1 H2 H3. assert (m < nev s) by (eapply slot_some_lt; apply H1; rewrite H3; left; auto).
-  split; [|split; [|split; [|split; [|split]]]]; auto. lia.
+  intros H1 H2. split; [|split; [|split; [|split; [|split; [|split; [|split]]]]]]; auto.
+  - constructor.
+  - intros i [].
 Qed.
-Lemma st_exit_c m L s s' : live s = m :: L -> St [] L m (Valid s) s' -> FrameC m s s'.
+Lemma st_exit s s' : St [] [] (live s) (nev s) (Valid s) (NT s) s' -> Frame s s'.
+Proof. intros [H1 [H2 [H3 [H4 [H5 [H6 [H7 H8]]]]]]]. split; [|split; [|split; [|split; [|split]]]]; auto. Qed.
+Lemma st_enter_c m L s :
+  LiveOK s -> NoDup (live s) -> live s = m :: L -> NT s m -> St [] [m] L m (Valid s) (NT s) s.
 Proof.
-  intros HL [H1 [H2 [H3 [H4 [H5 H6]]]]]. cbn in H2. split; [|split; [|split; [|split]]]; auto.
+  intros H1 H2 H3 H4.
+  assert (m < nev s) by (eapply slot_some_lt; apply H1; rewrite H3; left; auto).
+  split; [|split; [|split; [|split; [|split; [|split; [|split]]]]]]; auto; try lia.
+  - cbn [app]. constructor; auto.
+  - intros i [<-|[]]. exact H4.
+Qed.
+Lemma st_exit_c m L s s' : live s = m :: L -> St [] [] L m (Valid s) (NT s) s' -> FrameC m s s'.
+Proof.
+  intros HL [H1 [H2 [H3 [H4 [H5 [H6 [H7 H8]]]]]]]. cbn in H2.
+  split; [|split; [|split; [|split; [|split]]]]; auto.
   - congruence.
   - intros b Hb. lia.
+  - intros i Hi. apply H8. congruence.
 Qed.
-Lemma st_liveok own Lb b0 V s : St own Lb b0 V s -> LiveOK s /\ NoDup (live s).
-Proof. intros [H1 [_ [_ [_ [_ H6]]]]]. auto. Qed.
-Lemma st_lower own Lb b0 V s : St own Lb b0 V s -> b0 <= nev s.
+Lemma st_liveok pre own Lb b0 V W s : St pre own Lb b0 V W s -> LiveOK s /\ NoDup (live s).
+Proof. intros [H1 [_ [_ [_ [_ [H6 _]]]]]]. auto. Qed.
+Lemma st_lower pre own Lb b0 V W s : St pre own Lb b0 V W s -> b0 <= nev s.
 Proof. intros [_ [_ [_ [H _]]]]. auto. Qed.
-Lemma st_own_lower own Lb b0 V s m : St own Lb b0 V s -> In m own -> b0 <= m /\ m < nev s.
+Lemma st_own_lower pre own Lb b0 V W s m : St pre own Lb b0 V W s -> In m own -> b0 <= m /\ m < nev s.
 Proof.
-  intros [H1 [H2 [_ [_ [H5 _]]]]] Hin. rewrite Forall_forall in H5. split; auto.
-  eapply slot_some_lt. apply H1. rewrite H2. apply in_or_app. auto.
+  intros HS Hin. pose proof HS as [H1 [H2 [_ [_ [H5 _]]]]]. rewrite Forall_forall in H5. split.
+  - apply H5. apply in_or_app. auto.
+  - eapply slot_some_lt. apply H1. eapply in_own_live; eauto.
 Qed.
+Lemma st_live_head m own Lb b0 V W s : St [] (m :: own) Lb b0 V W s -> live s = m :: (own ++ Lb).
+Proof. intros [_ [H _]]. exact H. Qed.
+Lemma st_head_nt m own Lb b0 V W s : St [] (m :: own) Lb b0 V W s -> NT s m.
+Proof. intros [_ [_ [_ [_ [_ [_ [H _]]]]]]]. apply H. left. reflexivity. Qed.
 
 (* loops: the invariant is the threaded state predicate itself (plus a user part) *)
 Lemma WB_loopS_fuel {A B} (body : A -> M (A + B)) (Iv : A -> pst -> Prop) (Q : B -> pst -> Prop) :
